@@ -27,6 +27,8 @@ type Case struct {
 type assertFail struct{ label string }
 type diverged struct{ msg string }
 
+var padded int
+
 var (
 	cur      *Case
 	scope    string
@@ -50,7 +52,12 @@ func next(tag string) (int64, string) {
 	n := name(tag)
 	s, ok := cur.Nondet[n]
 	if !ok {
-		panic(diverged{"no value for " + n})
+		// The engine stops a path at its first failing obligation; natively that obligation may only be checkable
+		// by what follows (e.g. engine-side reachability vs. the behavioural check after it), so the run continues
+		// with zero for choices the engine never made. Any assertion that then fails is a real failure on the
+		// real code with concrete inputs; a violated assumption still ends the replay as DIVERGED.
+		padded++
+		return 0, n
 	}
 	switch s {
 	case "true":
@@ -105,7 +112,7 @@ func Assert(c bool, label string) {
 // wantLabel: "C01,C07:name" restricts an assertion to the named properties (same rule as the engine).
 func wantLabel(label string) bool {
 	i := strings.Index(label, ":")
-	if i <= 0 || label[0] != 'C' || cur.Property == "" || cur.Property == "C00" {
+	if i <= 0 || label[0] != 'C' || cur.Property == "" || cur.Property == "C00" || strings.HasPrefix(label[i+1:], "inv-") {
 		return true
 	}
 	for _, p := range strings.Split(label[:i], ",") {
